@@ -871,6 +871,42 @@ def curve_edge_binding(v, seed, th):
     return out
 
 
+def path_edge_binding(v, seed, th):
+    """Binding of the path -> edge stage (move/line/quad/cubic/close handling, monotonic chopping, cubic-to-quadratic
+    conversion, transform of the control points): the edges handed to the rasteriser (hook verif_edges) must be the
+    path's outline within 1/8 px (Trace_PathEdges: NEAR, COVER, MONO).  A failure is a pointer, not a verdict: the input
+    is rendered as it is and enlarged four times (the property quantifies over all paths and transforms, and a relative
+    error grows with the size) and Trace_Curve decides per pixel.  On the repaired tree nothing fails."""
+    out = []
+    stats = {}
+    for fam, n in (("curve-float", 3000 if th else 250), ("curve", 1500 if th else 150), ("curve-big", 300 if th else 30)):
+        ds = drive("C08", fam, seed + 5, n)
+        for s in ds:
+            s["want_edges"] = True
+        tp = execute("C08", "edges-" + fam, ds)
+        t = validate("C08", "Trace_PathEdges", tp, workers=12, timeout=3000)
+        v.add_tlc(t)
+        bad = sorted({tup[1] for tup in t.tuples("EDGE")})
+        stats[fam] = {"paths": len(ds), "edge_sets_off_outline": len(bad), "skipped": len(t.tuples("SKIP"))}
+        for k in bad[:16 if th else 6]:
+            sc = dict(ds[k - 1])
+            sc.pop("want_edges", None)
+            sc["id"] = "pathedges-%s" % sc["id"]
+            out.append(sc)
+            if sc["w"] <= 16:
+                big = dict(sc)
+                big["id"] = sc["id"] + "-x4"
+                big["w"], big["h"] = sc["w"] * 4, sc["h"] * 4
+                big["ctm"] = dict(sc["ctm"], m=[x * 4 for x in sc["ctm"]["m"]])
+                big["stride"] = 2
+                big["quantize"] = True      # (outline from the harness, long segments subdivided for the 31-bit cross products)
+                out.append(big)
+    v.extra["path_edge_binding"] = stats
+    if out:
+        log("[C08] edges handed to the rasteriser are off the path's outline: %s; %d rendered scenarios added" % (stats, len(out)))
+    return out
+
+
 @prop("C08")
 def c08(tier, seed):
     v = Verdicts("C08", tier, seed)
@@ -899,6 +935,7 @@ def c08(tier, seed):
     scs += drive("C08", "curve-big", seed, 300 if th else 12)
     scs += drive("C08", "curve-sweep", seed, 256 if th else 24)
     scs += curve_edge_binding(v, seed, th)
+    scs += path_edge_binding(v, seed, th)
     # design level: the curve-edge machine (CurveEdge.tla) tracks the true quadratic within 3/4 px on every sample row and its
     # subdivision count bounds the flattening error by 1/2 px, for every y-monotonic edge on a lattice (sub-pixel phase by seed)
     r = run_tlc("C08", "MC_CurveEdge", env={"MAXC": 192 if th else 96, "STEP": 24 if th else 16, "OFFS": (seed * 3) % 16}, workers=12, timeout=3000)
